@@ -1101,9 +1101,10 @@ fn sparql_triples_statement(input: &str) -> IResult<&str, Vec<LexicalTriplePatte
         };
         let after_semicolon = sparql_skip_ws(after_semicolon);
         if after_semicolon.is_empty()
-            || after_semicolon.starts_with(['.', '}'])
-            || sparql_starts_keyword(after_semicolon, "GRAPH")
-            || sparql_starts_keyword(after_semicolon, "UNION")
+            || after_semicolon.starts_with(['.', '}', '{'])
+            || ["GRAPH", "UNION", "FILTER", "BIND", "VALUES"]
+                .iter()
+                .any(|keyword| sparql_starts_keyword(after_semicolon, keyword))
         {
             input = after_semicolon;
             break;
